@@ -82,12 +82,8 @@ func VP_C04_arith() {
 	case SK_Minus:
 		vpAssert("C04/arith/sub-exact", vpBigEqSigned(r, A-B, m))
 	case SK_Asterisk:
-		sa, sb := int64(a.coef), int64(b.coef)
-		p := sa * sb
-		if a.neg != b.neg {
-			p = -p
-		}
-		vpAssert("C04/arith/mul-exact", vpBigEqSigned(r, p, a.exp+b.exp))
+		// coefficients below 2^32: the product fits 64 bits (incl. [2^63, 2^64))
+		vpAssert("C04/arith/mul-exact", vpBigEq(r, a.neg != b.neg, a.coef*b.coef, a.exp+b.exp))
 	case SK_Percent:
 		// truncated division: A = q*B + rem, |rem| < |B|, sign(rem) = sign(A)
 		rem := A % B
